@@ -899,7 +899,9 @@ def C19(tier, seed):
         for i in range(30 if tier == "quick" else 600):
             c = G.rand_cfg(rng, criteria=("size", "size", "both"), modes=("direct", "direct", "buf"), clean=(i % 2 == 0))
             c["crlf"] = False
-            c["bg"] = False
+            # (every third history with a cleanup lets the cleanup thread do it: its failures are not reported, by
+            # design, but it must go on cleaning up afterwards)
+            c["bg"] = i % 6 == 0
             if "size" in c:
                 c["size"] = rng.choice([10, 30, 60])
             steps = [{"op": "Start", "append": rng.random() < 0.3}]
@@ -1010,8 +1012,8 @@ def C19(tier, seed):
         C.write_evidence(pid, tier, seed, "fault_enumeration", cov,
                          A_COMMON + ["a failure is injected before the effect (the call is skipped and an io::Error of kind "
                                      "Other returned); partially performed effects (short writes) are not produced",
-                                     "synchronous cleanup (failures inside the background cleanup thread are not reported "
-                                     "by design and keep no record from being written)"], time.time() - t0, len(viols))
+                                     "failures inside the background cleanup thread are not reported by design (they keep "
+                                     "no record from being written); it is required to resume (CleanupResumes)"], time.time() - t0, len(viols))
         return 1 if viols else 0
     finally:
         if not os.environ.get("VERIF_KEEP"):
